@@ -20,9 +20,9 @@ def fmt_num(x, style):
     raise ValueError(style)
 
 
-def gen_frame_truth(rng, d, coord, cellkind, N, K, fmtstyle, origin_kind):
-    """returns dict with tokens + float truth for one frame"""
-    L = rng.uniform(1.0, 30.0, size=3)
+def gen_frame_truth(rng, d, coord, cellkind, N, K, fmtstyle, origin_kind, unit=1.0):
+    """returns dict with tokens + float truth for one frame; `unit` rescales every length (units si: boxes of a few 1e-9)"""
+    L = rng.uniform(1.0, 30.0, size=3) * unit
     if rng.random() < 0.2:
         L[:] = L[0]
     if origin_kind == "zero":
@@ -30,11 +30,11 @@ def gen_frame_truth(rng, d, coord, cellkind, N, K, fmtstyle, origin_kind):
     elif origin_kind == "neg":
         lo = -rng.uniform(0.1, 1.0, size=3) * L
     elif origin_kind == "large":
-        lo = rng.uniform(100, 5000, size=3) * rng.choice([-1, 1], size=3)
+        lo = rng.uniform(100, 5000, size=3) * rng.choice([-1, 1], size=3) * unit
     elif origin_kind == "centred":
         lo = -L / 2
     else:
-        lo = rng.uniform(-7, 7, size=3)
+        lo = rng.uniform(-7, 7, size=3) * unit
     xy = xz = yz = 0.0
     tri = cellkind != "ortho"
     if tri:
@@ -46,7 +46,7 @@ def gen_frame_truth(rng, d, coord, cellkind, N, K, fmtstyle, origin_kind):
             xz = s[1] * rng.uniform(0.02, 0.5) * L[0]
             yz = s[2] * rng.uniform(0.02, 0.5) * L[1]
     if d == 2:
-        lo[2], L[2] = -0.5, 1.0
+        lo[2], L[2] = -0.5 * unit, 1.0 * unit
     # tokens for the box; the truth is what the tokens say
     if tri:
         xlo_b = lo[0] + min(0.0, xy, xz, xy + xz)
@@ -120,7 +120,11 @@ def expected_positions(fr):
     return None, "wrapped"
 
 
-def emit(rng, frames, timesteps, order, extra_cols, spurious_z, flags, ws):
+ALIAS = {"x": (["xu", "yu", "zu"], ["xs", "ys", "zs"], ["ix", "iy", "iz"]), "xu": (["x", "y", "z"], ["xs", "ys", "zs"], ["ix", "iy", "iz"]),
+         "xs": (["x", "y", "z"], ["xu", "yu", "zu"], ["ix", "iy", "iz"])}
+
+
+def emit(rng, frames, timesteps, order, extra_cols, spurious_z, flags, ws, alias_extras=None):
     """text of the dump. order: 'sorted'|'reversed'|'random'. returns (text, extras_by_frame)"""
     out = []
     extras_all = []
@@ -137,6 +141,11 @@ def emit(rng, frames, timesteps, order, extra_cols, spurious_z, flags, ws):
         names = {"x": ["x", "y", "z"], "xs": ["xs", "ys", "zs"], "xu": ["xu", "yu", "zu"]}[fr["coord"]]
         ncoord = 3 if (d == 3 or spurious_z) else 2
         extra_names = [f"c_e{k}" for k in range(extra_cols)]
+        if alias_extras is not None and extra_cols:
+            # trailing columns that carry ANOTHER coordinate style or the image flags (dump custom id type x y z xu yu zu): extra columns
+            # like any other -- the coordinate columns are the ones right after id and type
+            pool = ALIAS[fr["coord"]][alias_extras % 3]
+            extra_names = (pool[:ncoord] + [f"c_e{k}" for k in range(extra_cols)])[:extra_cols]
         out.append("ITEM: ATOMS id type " + " ".join(names[:ncoord] + extra_names) + (" \n" if rng.random() < 0.5 else "\n"))
         ids = np.arange(N)
         o_ = order
